@@ -6,6 +6,7 @@ distributes deterministic slices of the enumeration over worker processes, merge
 turns the merged result into the evidence file, replay files and the exit status the MANIFEST contract asks for.
 """
 import collections
+import fnmatch
 import hashlib
 import json
 import multiprocessing as mp
@@ -176,11 +177,12 @@ def finish(prop, tier, seed, t0, merged, coverage, assumptions, level='model_che
     known = known_findings(prop)
     rdir = os.path.join(VERIF, 'replays', prop)
     new = 0
+    hit = collections.OrderedDict()
     for key, examples in merged.viol.items():
         cnt = merged.vcount[key]
-        if key in known:
-            print('KNOWN-FINDING: property=%s %s [key=%s, %d case(s) this run, e.g. %s]'
-                  % (prop, known[key], key, cnt, json.dumps(jsonable(examples[0]['case']))[:200]))
+        pat = next((k for k in known if k == key or ('*' in k and fnmatch.fnmatchcase(key, k))), None)
+        if pat is not None:
+            hit.setdefault(pat, []).append((key, cnt, examples[0]))
             continue
         new += 1
         ex = examples[0]
@@ -197,8 +199,11 @@ def finish(prop, tier, seed, t0, merged, coverage, assumptions, level='model_che
         print('  key=%s (%d case(s)): %s' % (key, cnt, ex['what']))
         print('  case=%s' % json.dumps(jsonable(ex['case']))[:400])
         print('  expected=%s observed=%s' % (json.dumps(jsonable(ex['expected']))[:300], json.dumps(jsonable(ex['observed']))[:300]))
+    for pat, hits in hit.items():
+        print('KNOWN-FINDING: property=%s %s [key=%s, %d case(s) this run under %d signature(s), e.g. %s]'
+              % (prop, known[pat], pat, sum(h[1] for h in hits), len(hits), json.dumps(jsonable(hits[0][2]['case']))[:200]))
     for key in known:
-        if key not in merged.viol:
+        if key not in hit:
             print('note: listed finding not reproduced in this run (tier/bound may not reach it): property=%s key=%s' % (prop, key))
     rnd = random.Random(seed)
     samples = list(merged.samples)
@@ -207,7 +212,7 @@ def finish(prop, tier, seed, t0, merged, coverage, assumptions, level='model_che
     cov['samples'] = jsonable(samples[:6]) or ['(none)']
     cov.setdefault('counters', {k: v for k, v in sorted(merged.n.items())})
     cov['outcome_classes'] = {k: (sorted(map(str, v))[:40] if len(v) <= 400 else len(v)) for k, v in merged.sets.items()}
-    cov['known_findings_hit'] = sorted(k for k in merged.viol if k in known)
+    cov['known_findings_hit'] = sorted(hit)
     ev = dict(property_id=prop, tier=tier, seed=seed, level=level, coverage=cov, assumptions=assumptions,
               wall_s=round(time.time() - t0, 2), violations=new)
     os.makedirs(os.path.join(VERIF, 'evidence'), exist_ok=True)
